@@ -19,14 +19,30 @@ RULE = ("Composite apertures: Hypothesis draws ring count, samples per segment (
         "linear (1e-12).  Primitives: membership vs the analytic inequality evaluated by the harness for all samples "
         "farther than the stated band from the boundary, inclusion under growth of the size parameter, mirror / rotation "
         "symmetries that map the sample grid onto itself, about the origin sample.  Non-trivial = more than one segment and "
-        "a boundary crossing the grid (composites); shape neither empty nor filling the grid (primitives).")
+        "a boundary crossing the grid (composites); shape neither empty nor filling the grid (primitives).  "
+        "Input classes drawn for every clause: memory layout of the coordinate grids (C / Fortran / transposed view / strided view); "
+        "for the primitives also float32 and integer (int64 / int32, whole-number) coordinate arrays and size parameters snapped to whole "
+        "numbers of samples (samples exactly on the analytic boundary: there only growth, the symmetries that are bit-exact - mirrors of "
+        "rectangle(angle 0 / 90), centred offset_circle, rotated_ellipse(angle 0), one-vane spider(rotation 0) - and, for keystone rings, "
+        "single ownership are asserted); keystone apertures on binary-fraction grids whose ring radii are whole numbers of samples "
+        "(Pythagorean radii, radial gap 0: samples on a radius shared by two rings), 2..36 segments per ring, centres and rings from 1-2 "
+        "samples to most of the grid; exclusion sets as tuple / list / integer array; compose_opd coefficients as array (C / F / strided, "
+        "float64 / float32 / integer unit piston), list of lists, tuple of arrays, at scales 1e-12 .. 1e6 and both signs with every "
+        "segment at its own scale (map on segment k == s_k x map of the unscaled row, 1e-11 relative), out= entry point, prepare_opd_bases "
+        "called twice on one object; every array argument compared with a copy after the call, every kept result (masks, amp, OPD maps) "
+        "compared with a copy after later calls and after a second aperture is built on the same grid.")
 ASSUMPTIONS = [
     "'within the rasterisation of its boundary' is read in two ways, both asserted: area within perimeter*dx, and membership may "
     "differ from the analytic shape only at samples within 1.25 (hexagon) / 1.5 (keystone) sample spacings of its boundary; the "
     "code's local windows clip at most one row or column of a segment (depth < 0.87 / < 1 spacing), which is inside both",
     "segment areas: hexagon (sqrt3/2) d^2 for flat-to-flat d; keystone local masks are whole annular sectors (the azimuthal gap "
     "is cut from amp only), area arc/2 (ro^2 - ri^2); tolerance = perimeter * dx (+ one sample)",
-    "samples within 1e-9*scale of an analytic boundary (1e-7*radius for the joggled Delaunay polygons) are don't-care",
+    "samples within 1e-9*scale of an analytic boundary (1e-7*radius for the joggled Delaunay polygons; 1e-5*scale for float32 "
+    "coordinate arrays, which the routines compare and rotate in float32) are don't-care for membership.  For ownership: two hexagons "
+    "with gap 0 both contain the samples on their shared edge (Delaunay point location is closed) - tolerated as before; two keystones "
+    "of one ring share an edge angle that the code computes twice in floating point - samples within 1e-9 rad of it are don't-care; "
+    "keystones of different rings / the centre disc are the sets ri < r <= ro, r <= rc with ri(next) >= ro(previous) whatever the "
+    "rounding, so a sample owned by two of them is a violation with no band at all",
     "rotation sense of spider / rectangle / rotated_ellipse is not asserted: the mask must match one of the two senses",
     "truecircle is anti-aliased on a grid normalised to [-1,1] and is checked as such",
     "apertures are generated to lie inside the grid with >= 2 samples of margin (clipping by the array edge is not examined)",
@@ -39,10 +55,46 @@ RASTER_BAND_KEY = 1.5    # proven bound: one clipped row / column, depth < 1
 
 
 # ---- harness grid and analytic shapes ------------------------------------------------------------------------------
-def grid(ny, nx, dx):
+def grid(ny, nx, dx, layout='C', dtype=None):
+    """sample i of an axis of length n sits at (i - n//2) dx; `layout` is one of vlib.util.LAYOUTS (same values, other strides);
+    `dtype` None / 'f64' (float64), 'f32' (coordinates rounded to float32), 'i64' / 'i32' (integer arrays, dx must be integral)"""
     x = (np.arange(nx, dtype=np.float64) - nx // 2) * dx
     y = (np.arange(ny, dtype=np.float64) - ny // 2) * dx
-    return np.broadcast_to(x[None, :], (ny, nx)).copy(), np.broadcast_to(y[:, None], (ny, nx)).copy()
+    X, Y = np.broadcast_to(x[None, :], (ny, nx)).copy(), np.broadcast_to(y[:, None], (ny, nx)).copy()
+    if dtype in ('f32', 'i64', 'i32'):
+        dt = {'f32': np.float32, 'i64': np.int64, 'i32': np.int32}[dtype]
+        X, Y = X.astype(dt), Y.astype(dt)
+    if layout != 'C':
+        X, Y = U.relayout(X, layout), U.relayout(Y, layout)
+    return X, Y
+
+
+class Keep:
+    """arguments must come back unchanged, results must not be overwritten by later calls: register arrays with their
+    copies, verify at the end of the case"""
+
+    def __init__(self, ctx):
+        self.ctx = ctx
+        self.items = []
+
+    def arg(self, what, a):
+        if isinstance(a, np.ndarray):
+            self.items.append(('argument-modified', what, a, a.copy()))
+        return a
+
+    def result(self, what, a):
+        if isinstance(a, np.ndarray):
+            self.items.append(('result-overwritten', what, a, a.copy()))
+        return a
+
+    def verify(self, prefix):
+        for cls, what, a, c in self.items:
+            same = a.shape == c.shape and a.dtype == c.dtype and np.array_equal(a, c, equal_nan=a.dtype.kind == 'f')
+            self.ctx.require(same, '%s:%s' % (prefix, cls),
+                             '%s %s: %d of %d elements differ from the copy taken %s' % (
+                                 what, 'was modified by the call' if cls == 'argument-modified' else 'was changed by a later call',
+                                 int(np.sum(a != c)) if a.shape == c.shape else -1, a.size,
+                                 'before the call' if cls == 'argument-modified' else 'when it was returned'))
 
 
 def poly_margin(px, py, sides, radius, center, rot_deg):
@@ -100,20 +152,27 @@ def hex_setup(case):
     return rings, d, gap, dx, spp, ny, nx
 
 
-def build_hex(case, ctx):
+def build_hex(case, ctx, keep=None):
     from prysm.segmented import CompositeHexagonalAperture
     rings, d, gap, dx, spp, ny, nx = hex_setup(case)
-    x, y = grid(ny, nx, dx)
+    x, y = grid(ny, nx, dx, case.get('layout', 'C'))
     total = nhex(rings)
     excl = sorted(set(int(e) % total for e in case['exclude']))
-    cha = ctx.call(CompositeHexagonalAperture, x, y, rings, d, gap, segment_angle=case['angle'], exclude=tuple(excl))
+    # the documented "sequence of int": tuple, list, or an integer array
+    ef = case.get('exclude_form', 'tuple')
+    exarg = tuple(excl) if ef == 'tuple' else list(excl) if ef == 'list' else np.array(excl, dtype=np.int64)
+    if keep is not None:
+        keep.arg('x', x), keep.arg('y', y), keep.arg('exclude', exarg)
+    cha = ctx.call(CompositeHexagonalAperture, x, y, rings, d, gap, segment_angle=case['angle'], exclude=exarg)
     return cha, (rings, d, gap, dx, spp, ny, nx, x, y, total, excl)
 
 
 def check_hex(case, ctx):
     """CompositeHexagonalAperture: count / ids under exclusion, no overlap, amp == union of placed local masks, hexagon area."""
-    cha, (rings, d, gap, dx, spp, ny, nx, x, y, total, excl) = build_hex(case, ctx)
+    keep = Keep(ctx)
+    cha, (rings, d, gap, dx, spp, ny, nx, x, y, total, excl) = build_hex(case, ctx, keep)
     want_ids = [i for i in range(total) if i not in excl]
+    ctx.label('layout:' + case.get('layout', 'C'), 'exclude-as:' + case.get('exclude_form', 'tuple'))
     ctx.label('rings:%d' % rings, 'angle:%d' % case['angle'], 'parity:' + case['parity'], 'aspect:' + case['aspect'],
               'gap0' if gap == 0 else 'gap>0', 'excl:%s' % ('none' if not excl else 'center' if excl == [0] else 'some'),
               'spp:%s' % ('6-9' if spp < 10 else '10-29' if spp < 30 else '30-60'))
@@ -170,6 +229,20 @@ def check_hex(case, ctx):
             ctx.fail('hex:exterior-included', 'segment %d contains %d samples up to %.3f sample spacings outside the analytic hexagon' % (
                 sid, int(extra.sum()), float(mg[extra].max() / dx)))
     ctx.tally('segments_checked', len(ids))
+    if case.get('second', False):
+        # a second aperture built on the same coordinate arrays (other orientation, ring count, gap): what the first one
+        # returned must not change (masks / windows living in shared state), nor may the coordinates
+        ctx.label('second-aperture-on-same-grid')
+        keep.result('amp', amp)
+        for sid, m in zip(ids, cha.local_masks):
+            keep.result('local mask of segment %d' % sid, np.asarray(m))
+        w0 = [tuple((sl.start, sl.stop) for sl in w) for w in cha.windows]
+        from prysm.segmented import CompositeHexagonalAperture
+        other = ctx.call(CompositeHexagonalAperture, x, y, max(1, rings - 1), 0.8 * d, 0.05 * d, segment_angle=90 - case['angle'], exclude=(0,) if excl != [0] else ())
+        ctx.require(np.asarray(other.amp).shape == (ny, nx), 'hex:amp', 'second aperture: amp shape %r' % (np.asarray(other.amp).shape,))
+        w1 = [tuple((sl.start, sl.stop) for sl in w) for w in cha.windows]
+        ctx.require(w0 == w1 and [int(i) for i in cha.segment_ids] == ids, 'hex:result-overwritten', 'windows / segment_ids of the first aperture changed when a second one was built')
+    keep.verify('hex')
     return cha, cnt
 
 
@@ -182,6 +255,8 @@ def strat_hex(tier):
         'aspect': st.sampled_from(['square', 'square', 'tall', 'wide']),
         'exclude': st.one_of(st.just([]), st.just([0]), st.lists(st.sampled_from(range(nhex(r))), max_size=nhex(r), unique=True).map(sorted),
                              st.lists(st.sampled_from(range(nhex(r))), min_size=1, max_size=4, unique=True).map(sorted)),
+        'layout': U.layouts, 'exclude_form': st.sampled_from(['tuple', 'tuple', 'list', 'ndarray']),
+        'second': st.sampled_from([False, False, False, True]),
     }))
 
 
@@ -190,7 +265,8 @@ def enum_hex_single(tier):
         for angle in (0, 90):
             for e in range(nhex(r)):
                 yield {'rings': r, 'd': 1.0, 'gapf': [0.0, 0.02, 0.1][e % 3], 'sppf': [0.0, 0.15, 0.3][(e // 3) % 3], 'angle': angle,
-                       'parity': ['odd', 'even'][(e + r) % 2], 'pad': e % 4, 'aspect': 'square', 'exclude': [e]}
+                       'parity': ['odd', 'even'][(e + r) % 2], 'pad': e % 4, 'aspect': 'square', 'exclude': [e],
+                       'layout': U.LAYOUTS[(e + angle // 90) % len(U.LAYOUTS)], 'exclude_form': ['tuple', 'list', 'ndarray'][e % 3]}
 
 
 def check_hex_tiling(case, ctx):
@@ -230,52 +306,165 @@ def orders_of(name, picks, piston_at):
     return out, k
 
 
-def check_opd_common(ctx, compose, nseg, nmodes, piston_idx, placed_masks, shape, seed, kind, segs_to_probe):
-    """compose(coefs (nseg, nmodes)) -> map.  unit piston support, no leakage, linearity."""
+COEF_FORMS = ['array', 'array', 'list', 'tuple-of-arrays', 'f32', 'int', 'F', 'strided']
+
+
+def coef_arg(C, form):
+    """(container handed to compose_opd, the float64 values it represents).  The docstring: 'an iterable of coefficients for
+    each segment ... if an array, of shape (segments, orders)'."""
+    C = np.asarray(C, dtype=np.float64)
+    if form == 'f32':
+        c32 = C.astype(np.float32)
+        return c32, c32.astype(np.float64)
+    if form == 'list':
+        return [[float(v) for v in row] for row in C], C
+    if form == 'tuple-of-arrays':
+        return tuple(np.array(row) for row in C), C
+    if form in ('F', 'strided'):
+        return U.relayout(C, form), C
+    return C.copy(), C
+
+
+def _same_arg(before, after):
+    if isinstance(before, np.ndarray):
+        return isinstance(after, np.ndarray) and before.dtype == after.dtype and np.array_equal(before, after)
+    if isinstance(before, (list, tuple)):
+        return type(before) is type(after) and len(before) == len(after) and all(_same_arg(p, q) for p, q in zip(before, after))
+    return before == after
+
+
+def _copy_arg(a):
+    if isinstance(a, np.ndarray):
+        return a.copy()
+    if isinstance(a, (list, tuple)):
+        return type(a)(_copy_arg(v) for v in a)
+    return a
+
+
+def check_opd_common(ctx, compose, nseg, nmodes, piston_idx, placed_masks, shape, seed, kind, segs_to_probe, case=None):
+    """compose(coefs (nseg, nmodes), **kw) -> map.  unit piston support, no leakage, linearity (whole map at one common scale,
+    and per segment with every segment's coefficients at its own scale 10**-12 .. 10**6 and sign), arguments unchanged,
+    results independent of each other, out= entry point."""
+    case = case or {}
+    exps = [int(e) for e in (case.get('cexp') or [0])]
+    sgn = [int(v) for v in (case.get('csign') or [1])]
+    scales = np.array([sgn[k % len(sgn)] * 10.0 ** exps[k % len(exps)] for k in range(nseg)])
+    form = case.get('cform', 'array')
+    ctx.label('coefs-as:' + form, *set('coef-scale:1e%+03d' % e for e in exps))
+
+    def run(C, **kw):
+        """one call with the coefficient set C in the drawn container form; returns (map, represented values)"""
+        arg, vals = coef_arg(C, 'array' if form == 'int' else form)
+        before = _copy_arg(arg)
+        o = np.asarray(ctx.call(compose, arg, **kw))
+        ctx.require(_same_arg(before, arg), kind + ':argument-modified', 'compose_opd changed the coefficient %s it was given' % type(arg).__name__)
+        U.check_shape(o, shape, kind + ':opd')
+        return o, vals
+
     zero = np.zeros((nseg, nmodes))
-    base = np.asarray(ctx.call(compose, zero.copy()))
-    U.check_shape(base, shape, kind + ':opd')
+    base, _ = run(zero)
     ctx.require(not base.any(), kind + ':opd-zero', 'compose_opd of all-zero coefficients is not zero (max |v| = %g)' % float(np.abs(base).max()))
+    cnt = np.zeros(shape, dtype=np.int32)
+    for pm in placed_masks:
+        cnt += pm
     r = U.rng_of(seed, 181)
     for k in segs_to_probe:
-        c = zero.copy()
-        c[k, piston_idx] = 1.0
-        o = np.asarray(ctx.call(compose, c))
+        own = placed_masks[k]
+        if form == 'int':
+            # a unit piston written the obvious way: an integer array with a single 1
+            ci = np.zeros((nseg, nmodes), dtype=np.int64)
+            ci[k, piston_idx] = 1
+            o = np.asarray(ctx.call(compose, ci))
+            ctx.require(int(ci.sum()) == 1 and ci[k, piston_idx] == 1, kind + ':argument-modified', 'compose_opd changed an integer coefficient array')
+            U.check_shape(o, shape, kind + ':opd')
+        else:
+            c = zero.copy()
+            c[k, piston_idx] = 1.0
+            o, _ = run(c)
         ctx.require(np.isfinite(o).all(), kind + ':opd-nonfinite', 'unit piston on segment index %d gives non-finite OPD' % k)
         sup = o != 0
-        if not np.array_equal(sup, placed_masks[k]):
-            out = int((sup & ~placed_masks[k]).sum())
-            miss = int((~sup & placed_masks[k]).sum())
+        if not np.array_equal(sup, own):
+            out = int((sup & ~own).sum())
+            miss = int((~sup & own).sum())
             ctx.fail(kind + ':piston-support', 'unit piston on segment index %d: OPD non-zero on %d samples outside the segment mask and zero on %d samples inside it' % (k, out, miss))
-        vals = o[placed_masks[k]]
+        vals = o[own]
         if vals.size:
             ctx.require(float(np.ptp(vals)) <= 1e-12 * max(1.0, float(np.abs(vals).max())), kind + ':piston-not-constant',
                         'unit piston on segment index %d is not constant over the segment: min %r max %r' % (k, float(vals.min()), float(vals.max())))
-        # arbitrary coefficients on this one segment stay inside it
+        # the same piston with the amplitude of this segment's scale (OPD in metres, nanometres, waves ...): same support, s times the value
+        sk = float(scales[k])
+        if sk != 1.0:
+            c = zero.copy()
+            c[k, piston_idx] = sk
+            os_, cv = run(c)
+            sk_ = float(cv[k, piston_idx])
+            sup = os_ != 0
+            if not np.array_equal(sup, own):
+                ctx.fail(kind + ':piston-support:scaled', 'piston of %g on segment index %d: OPD non-zero on %d samples outside the segment mask and zero on %d samples inside it '
+                         '(a unit piston has exactly the support of the mask)' % (sk_, k, int((sup & ~own).sum()), int((~sup & own).sum())))
+            if vals.size:
+                e = float(np.abs(os_[own] - sk_ * vals).max())
+                ctx.require(e <= 1e-12 * abs(sk_) * max(1.0, float(np.abs(vals).max())), kind + ':opd-linear:scaled-piston',
+                            'piston of %g on segment index %d is not %g times the unit piston: max err %.3g' % (sk_, k, sk_, e))
+        # arbitrary coefficients (at this segment's scale) on this one segment stay inside it
         c = zero.copy()
-        c[k] = r.uniform(-1, 1, nmodes)
-        o = np.asarray(ctx.call(compose, c))
-        leak = (o != 0) & ~placed_masks[k]
+        c[k] = r.uniform(-1, 1, nmodes) * sk
+        o, _ = run(c)
+        leak = (o != 0) & ~own
         # NaN anywhere counts as a change of that sample
-        leak |= ~np.isfinite(o) & ~placed_masks[k]
+        leak |= ~np.isfinite(o) & ~own
         ctx.require(not leak.any(), kind + ':opd-leak', 'coefficients on segment index %d alone change %d samples outside its mask' % (k, int(leak.sum())))
-    # linearity
-    A = r.uniform(-1, 1, (nseg, nmodes))
-    B = r.uniform(-1, 1, (nseg, nmodes))
+    # linearity of the whole map, all coefficients at one common scale
+    S = abs(float(scales[0]))
+    A = r.uniform(-1, 1, (nseg, nmodes)) * S
+    B = r.uniform(-1, 1, (nseg, nmodes)) * S
     a, b = float(r.uniform(-2, 2)), float(r.uniform(-2, 2))
-    oa = np.asarray(ctx.call(compose, A.copy()))
-    ob = np.asarray(ctx.call(compose, B.copy()))
-    oab = np.asarray(ctx.call(compose, a * A + b * B))
+    oa, A = run(A)
+    ob, B = run(B)
+    oa_kept, ob_kept = oa.copy(), ob.copy()
+    oab, _ = run(a * A + b * B) if form != 'f32' else (np.asarray(ctx.call(compose, a * A + b * B)), None)
+    ctx.require(np.array_equal(oa, oa_kept, equal_nan=True) and np.array_equal(ob, ob_kept, equal_nan=True), kind + ':result-overwritten',
+                'a map returned by compose_opd changed when compose_opd was called again with other coefficients')
     if np.isfinite(oa).all() and np.isfinite(ob).all():
-        scale = max(1.0, float(np.abs(oa).max()), float(np.abs(ob).max()))
-        U.check_close(oab, a * oa + b * ob, 0, kind + ':opd-linear', 'compose(a A + b B) vs a compose(A) + b compose(B)', atol=1e-11 * scale)
+        scale = max(S, float(np.abs(oa).max()), float(np.abs(ob).max()))
+        U.check_close(oab, a * oa + b * ob, 0, kind + ':opd-linear', 'compose(a A + b B) vs a compose(A) + b compose(B), coefficients of size %g' % S, atol=1e-11 * scale)
     else:
         ctx.fail(kind + ':opd-nonfinite', 'compose_opd of random coefficients is not finite')
     # the union of supports: nothing outside all masks is ever touched
-    allm = np.zeros(shape, dtype=bool)
-    for pm in placed_masks:
-        allm |= pm
+    allm = cnt > 0
     ctx.require(not ((oa != 0) & ~allm).any(), kind + ':opd-leak', 'random coefficients on all segments touch %d samples outside every segment' % int(((oa != 0) & ~allm).sum()))
+    # linearity segment by segment: row k of the coefficient set multiplied by its own s_k (|s_k| from 1e-12 to 1e6, either
+    # sign) multiplies the map on segment k by s_k.  Samples owned by two touching segments are left out.
+    C1 = r.uniform(-1, 1, (nseg, nmodes))
+    # no row may be all-small by accident at unit scale
+    C1[np.arange(nseg), r.integers(0, nmodes, nseg)] = np.where(r.uniform(size=nseg) < 0.5, -1.0, 1.0) * r.uniform(0.5, 1.0, nseg)
+    oS, Cs = run(scales[:, None] * C1)
+    o1, _ = run(Cs / scales[:, None]) if form != 'f32' else (np.asarray(ctx.call(compose, Cs / scales[:, None])), None)
+    ctx.require(np.isfinite(oS).all() and np.isfinite(o1).all(), kind + ':opd-nonfinite', 'compose_opd of scaled coefficients is not finite')
+    for k in range(nseg):
+        m = placed_masks[k] & (cnt == 1)
+        if not m.any():
+            continue
+        ref = scales[k] * o1[m]
+        tol = 1e-11 * abs(scales[k]) * max(1.0, float(np.abs(o1[m]).max()))
+        e = np.abs(oS[m] - ref)
+        if float(e.max()) > tol:
+            i = int(np.argmax(e))
+            ctx.fail(kind + ':opd-linear:segment-scale', 'segment index %d with its coefficients multiplied by %g (other segments by %s): map on the segment is not %g times the '
+                     'map of the unscaled coefficients: got %r, expected %r (err %.3g, tol %.3g); %d of %d samples bad' % (
+                         k, scales[k], sorted(set('%g' % v for v in scales)), scales[k], float(oS[m][i]), float(ref[i]), float(e.max()), tol, int((e > tol).sum()), int(m.sum())))
+    ctx.tally('segments_checked_at_their_own_scale', nseg)
+    # result independent of what the caller does with an earlier result
+    again_ref = oS.copy()
+    oS[...] = 7.0
+    again, _ = run(scales[:, None] * C1)
+    ctx.require(np.array_equal(again, again_ref), kind + ':aliased-state', 'compose_opd with the same coefficients gives another map after the caller overwrote the map returned before: '
+                '%d samples differ' % int((again != again_ref).sum()))
+    # out=: "array to insert OPD into, allocated if None"
+    buf = np.zeros(shape, dtype=again.dtype)
+    res, _ = run(scales[:, None] * C1, out=buf)
+    ctx.require(np.array_equal(res, again_ref) and np.array_equal(buf, again_ref), kind + ':out-argument',
+                'compose_opd(coefs, out=zeros): returned map / out differ from compose_opd(coefs) at %d / %d samples' % (int((res != again_ref).sum()), int((buf != again_ref).sum())))
 
 
 def strat_hex_opd(tier):
@@ -287,25 +476,46 @@ def strat_hex_opd(tier):
         'basis': st.sampled_from(['zernike', 'xy', 'hopkins']), 'picks': st.lists(st.integers(0, 5), min_size=0, max_size=4),
         'piston_at': st.integers(0, 4), 'norm_radius': st.sampled_from([None, None, 1.0, 0.37]), 'seed': U.seeds,
         'probe': st.lists(st.integers(0, 18), min_size=1, max_size=3),
+        **opd_extras(),
     })
+
+
+def opd_extras():
+    """coefficient scales over many decades and both signs (one entry per segment, cyclic), container / dtype / layout of the
+    coefficient set, layout of the coordinate grid, a warm-up prepare_opd_bases with another basis on the same object"""
+    return {'cexp': st.lists(st.one_of(st.integers(-12, 6), st.sampled_from([-12, -10, -9, -8, -7, 0, 0, 3, 6])), min_size=1, max_size=4),
+            'csign': st.lists(st.sampled_from([1, -1]), min_size=1, max_size=3),
+            'cform': st.sampled_from(COEF_FORMS), 'layout': U.layouts, 'reprepare': st.booleans(),
+            'exclude_form': st.sampled_from(['tuple', 'list', 'ndarray'])}
 
 
 def check_hex_opd(case, ctx):
     """CompositeHexagonalAperture.prepare_opd_bases / compose_opd: unit piston support == that segment's mask, no leakage, linear."""
-    cha, (rings, d, gap, dx, spp, ny, nx, x, y, total, excl) = build_hex(case, ctx)
+    keep = Keep(ctx)
+    cha, (rings, d, gap, dx, spp, ny, nx, x, y, total, excl) = build_hex(case, ctx, keep)
     nseg = len(cha.segment_ids)
     if nseg == 0:
         ctx.exclude('every segment excluded')
     orders, pk = orders_of(case['basis'], case['picks'], case['piston_at'])
-    ctx.label('basis:' + case['basis'], 'modes:%d' % len(orders), 'norm:' + ('default' if case['norm_radius'] is None else 'given'))
+    ctx.label('basis:' + case['basis'], 'modes:%d' % len(orders), 'norm:' + ('default' if case['norm_radius'] is None else 'given'),
+              'layout:' + case.get('layout', 'C'))
     ctx.nt(nseg > 1)
     kw = {}
     if case['norm_radius'] is not None:
         kw['normalization_radius'] = case['norm_radius'] * d
-    ctx.call(cha.prepare_opd_bases, basis_of(case['basis']), orders, **kw)
+    keep.result('amp', np.asarray(cha.amp))
+    for sid, m in zip(cha.segment_ids, cha.local_masks):
+        keep.result('local mask of segment %d' % sid, np.asarray(m))
+    if case.get('reprepare', False):
+        # the same aperture object prepared first with another basis / other orders / another normalisation
+        ctx.label('prepared-twice')
+        other = {'zernike': 'xy', 'xy': 'hopkins', 'hopkins': 'zernike'}[case['basis']]
+        ctx.call(cha.prepare_opd_bases, basis_of(other), BASES[other][1:4], normalization_radius=0.61 * d)
+    ctx.call(cha.prepare_opd_bases, basis_of(case['basis']), list(orders), **kw)
     pms = [placed((ny, nx), w, m) for w, m in zip(cha.windows, cha.local_masks)]
     probe = sorted(set(p % nseg for p in case['probe']))
-    check_opd_common(ctx, lambda c: cha.compose_opd(c), nseg, len(orders), pk, pms, (ny, nx), case['seed'], 'hex', probe)
+    check_opd_common(ctx, lambda c, **k: cha.compose_opd(c, **k), nseg, len(orders), pk, pms, (ny, nx), case['seed'], 'hex', probe, case)
+    keep.verify('hex')
 
 
 # ---- keystone --------------------------------------------------------------------------------------------------------
@@ -315,8 +525,14 @@ def key_setup(case):
     widths = [float(w) for w in case['widths']][:rings]
     gap = float(case['radial_gap'])
     R = rc + sum(widths) + gap * rings
-    ro_samples = case['ro_samples']
-    dx = R / ro_samples
+    if case.get('dx') is not None:
+        # sample spacing given outright (binary fractions, with radii that are whole numbers of samples: samples lie exactly
+        # on the ring radii)
+        dx = float(case['dx'])
+        ro_samples = int(math.ceil(R / dx))
+    else:
+        ro_samples = case['ro_samples']
+        dx = R / ro_samples
     n = 2 * (ro_samples + 2 + case['pad']) + 1
     if case['parity'] == 'even':
         n += 1
@@ -349,26 +565,33 @@ def ang_dist(t, a):
     return np.abs((t - a + math.pi) % (2 * math.pi) - math.pi)
 
 
-def build_keystone(case, ctx):
+def build_keystone(case, ctx, keep=None):
     from prysm.segmented import CompositeKeystoneAperture
     rc, rings, widths, gap, dx, n = key_setup(case)
-    x, y = grid(n, n, dx)
+    x, y = grid(n, n, dx, case.get('layout', 'C'))
     rots = case['rotation']
-    ka = ctx.call(CompositeKeystoneAperture, x, y, 2 * rc, rings, list(widths) if case['list_args'] else (widths[0] if len(set(widths)) == 1 else list(widths)),
-                  list(case['spr']) if case['list_args'] or len(set(case['spr'])) > 1 else case['spr'][0],
-                  gap, case['azimuthal_gap'], rots)
+    wa = list(widths) if case['list_args'] else (widths[0] if len(set(widths)) == 1 else list(widths))
+    sa = list(case['spr']) if case['list_args'] or len(set(case['spr'])) > 1 else case['spr'][0]
+    ra = list(rots) if isinstance(rots, list) else rots
+    if keep is not None:
+        keep.arg('x', x), keep.arg('y', y)
+    given = (_copy_arg(wa), _copy_arg(sa), _copy_arg(ra))
+    ka = ctx.call(CompositeKeystoneAperture, x, y, 2 * rc, rings, wa, sa, gap, case['azimuthal_gap'], ra)
+    ctx.require((wa, sa, ra) == given, 'keystone:argument-modified', 'ring_radius / segments_per_ring / rotation_per_ring lists changed: %r -> %r' % (given, (wa, sa, ra)))
     return ka, (rc, rings, widths, gap, dx, n, x, y)
 
 
 def check_keystone(case, ctx):
     """CompositeKeystoneAperture: count, no sample in two segments, every transmitting sample in a segment, sector areas."""
-    ka, (rc, rings, widths, gap, dx, n, x, y) = build_keystone(case, ctx)
+    keep = Keep(ctx)
+    ka, (rc, rings, widths, gap, dx, n, x, y) = build_keystone(case, ctx, keep)
     segs = key_segments(case)
     nseg = sum(case['spr'])
     rots = case['rotation']
+    ctx.label('layout:' + case.get('layout', 'C'), 'grid:' + ('radii-on-samples' if case.get('dx') is not None else 'generic'))
     ctx.label('rings:%d' % rings, 'rot:' + ('none' if rots is None else 'scalar' if not isinstance(rots, list) else 'list'),
               'parity:' + case['parity'], 'gap0' if gap == 0 else 'gap>0', 'azgap:' + ('same' if case['azimuthal_gap'] is None else 'given'),
-              *set('spr:%s' % ('2' if s == 2 else '3' if s == 3 else '4' if s == 4 else '5+') for s in case['spr']))
+              *set('spr:%s' % ('2' if s == 2 else '3' if s == 3 else '4' if s == 4 else '5-12' if s <= 12 else '13+') for s in case['spr']))
     crosses = [(u + arc > 2 * math.pi) and (u <= 2 * math.pi) for (_, _, _, _, u, arc) in segs]
     wide = [arc > math.pi / 2 * (1 + 1e-12) for (_, _, _, _, u, arc) in segs]
 
@@ -442,22 +665,41 @@ def check_keystone(case, ctx):
     a = float(np.count_nonzero(ka.center_mask)) * dx * dx
     ctx.require(abs(a - math.pi * rc * rc) <= 2 * math.pi * rc * dx + dx * dx, 'keystone:center-area',
                 'centre circle area %.6g vs %.6g (rc=%g dx=%g)' % (a, math.pi * rc * rc, rc, dx))
-    # overlap (don't-care on analytic boundaries)
+    # how many samples sit exactly on a ring radius (there the <= / < of the construction decides who owns the sample)
+    radii = sorted(set([rc] + [sg[2] for sg in segs] + [sg[3] for sg in segs]))
+    on_radius = np.zeros(r.shape, dtype=bool)
+    for q_ in radii:
+        on_radius |= (r == q_)
+    ctx.tally('samples_exactly_on_a_ring_radius', int(on_radius.sum()))
+    if on_radius.any():
+        ctx.label('has-samples-exactly-on-a-ring-radius' + (':touching-rings' if gap == 0 else ''))
+    # overlap.  Radially the segments are the half-open rings ri < r <= ro stacked on the closed centre disc r <= rc with
+    # ri(next) = ro(previous) + gap >= ro(previous): two segments of different rings (or a segment and the centre) can never
+    # share a sample, whatever the rounding, so there is no don't-care band in the radial direction.  Two neighbours of one
+    # ring are separated by an angle both of them compute in floating point: samples within 1e-9 rad of it are don't-care.
     if cnt.max() > 1:
         yy, xx = np.nonzero(cnt > 1)
         rr, tt = r[yy, xx], t[yy, xx]
-        care = np.ones(len(yy), dtype=bool)
         pmc = placed((n, n), ka.center_window, ka.center_mask)[yy, xx]
-        care &= ~(pmc & (np.abs(rr - rc) <= band_r))
-        owner = np.full(len(yy), -1)
+        claims = [[] for _ in range(len(yy))]
+        care = np.ones(len(yy), dtype=bool)
         for i, ((j, k, ri, ro, u, arc), w, m) in enumerate(zip(segs, ka.segment_windows, ka.segment_masks)):
             pm = placed((n, n), w, m)[yy, xx]
-            onb = (np.abs(rr - ri) <= band_r) | (np.abs(rr - ro) <= band_r) | (ang_dist(tt, u) <= 1e-9) | (ang_dist(tt, u + arc) <= 1e-9)
+            for q in np.nonzero(pm)[0]:
+                claims[q].append(i)
+            onb = (ang_dist(tt, u) <= 1e-9) | (ang_dist(tt, u + arc) <= 1e-9)
             care &= ~(pm & onb)
-            owner = np.where(pm & (owner < 0), i, owner)
+        for q in range(len(yy)):
+            rings_claiming = set(segs[i][0] for i in claims[q]) | ({-1} if pmc[q] else set())
+            if len(rings_claiming) > 1:
+                who = (['centre disc'] if pmc[q] else []) + ['ring %d segment %d' % (segs[i][0], segs[i][1]) for i in claims[q]]
+                nbad = sum(1 for q2 in range(len(yy)) if len(set(segs[i][0] for i in claims[q2]) | ({-1} if pmc[q2] else set())) > 1)
+                ctx.fail('keystone:overlap:across-rings', 'overlap: sample (row %d, col %d) at (%.6g, %.6g), r=%.17g, belongs to %s; ring radii %r, radial_gap=%g; %d such samples '
+                         '(centre diameter %g, widths %r, spr=%r, dx=%g, grid %d)' % (yy[q], xx[q], x[yy[q], xx[q]], y[yy[q], xx[q]], rr[q], ' and '.join(who),
+                                                                                    radii, gap, nbad, 2 * rc, widths, case['spr'], dx, n))
         if care.any():
             q = int(np.argmax(care))
-            claim = [i for i, (w, m) in enumerate(zip(ka.segment_windows, ka.segment_masks)) if placed((n, n), w, m)[yy[q], xx[q]]]
+            claim = claims[q]
             b = 'keystone:overlap'
             if any(crosses[i] for i in claim):
                 b = 'keystone:seam-crossing'
@@ -472,6 +714,15 @@ def check_keystone(case, ctx):
         ctx.fail('keystone:transmitting-outside-segments', '%d transmitting samples of amp belong to no segment, first at r=%.6g t=%.6g deg' % (
             len(yy), r[yy[0], xx[0]], math.degrees(t[yy[0], xx[0]])))
     ctx.tally('segments_checked', nseg)
+    if case.get('second', False):
+        ctx.label('second-aperture-on-same-grid')
+        keep.result('amp', amp)
+        keep.result('centre mask', np.asarray(ka.center_mask))
+        for i, m in enumerate(ka.segment_masks):
+            keep.result('mask of segment %d' % i, np.asarray(m))
+        from prysm.segmented import CompositeKeystoneAperture
+        ctx.call(CompositeKeystoneAperture, x, y, 1.3 * rc, 1, 0.7 * widths[0], 5, 0.5 * gap + 0.01 * rc, None, 12.5)
+    keep.verify('keystone')
     return ka
 
 
@@ -480,18 +731,41 @@ def strat_keystone(tier):
     anyrot = st.integers(0, 3599).map(lambda v: ((v * 2654435761) % 3600) / 10)
     rot1 = st.one_of(st.none(), anyrot, anyrot, anyrot, st.sampled_from([0.0, 90.0, 180.0, 270.0, 360.0, 22.5, 45.0, 313.2]))
 
+    common = {'layout': U.layouts, 'second': st.sampled_from([False, False, False, True])}
+
     def body(rings):
         return st.fixed_dictionaries({
-            'center_diameter': st.sampled_from([1.0, 2.4, 0.6, 0.25]),
-            'spr': st.lists(st.sampled_from([2, 3, 4, 5, 6, 7, 8, 9, 10, 11, 12, 3, 4, 6, 8]), min_size=rings, max_size=rings),
-            'widths': st.lists(st.sampled_from([1.0, 0.9, 0.5, 1.5, 0.31]), min_size=rings, max_size=rings),
+            # centre from a few samples across to most of the aperture; rings from 1-2 samples thick to wide
+            'center_diameter': st.sampled_from([1.0, 2.4, 0.6, 0.25, 0.06, 6.0]),
+            'spr': st.lists(st.sampled_from([2, 3, 4, 5, 6, 7, 8, 9, 10, 11, 12, 3, 4, 6, 8, 16, 24, 36]), min_size=rings, max_size=rings),
+            'widths': st.lists(st.sampled_from([1.0, 0.9, 0.5, 1.5, 0.31, 0.05]), min_size=rings, max_size=rings),
             'radial_gap': st.sampled_from([0.0, 0.007, 0.02, 0.05, 0.08]),
             'azimuthal_gap': st.sampled_from([None, None, 0.0, 0.01, 0.05]),
             'rotation': st.one_of(st.none(), rot1, rot1, st.lists(rot1, min_size=rings, max_size=rings), st.lists(rot1, min_size=rings, max_size=rings)),
             'ro_samples': st.integers(40, 110 if tier == 'quick' else 160), 'pad': st.integers(0, 6), 'parity': st.sampled_from(['odd', 'even']),
-            'list_args': st.booleans(),
+            'list_args': st.booleans(), **common,
         })
-    return st.sampled_from([1, 2, 2, 3]).flatmap(body)
+
+    def body_exact(rings):
+        """sample spacing a binary fraction, centre radius / ring widths / radial gap whole numbers of samples (many of the
+        cumulative radii hypotenuses of Pythagorean triples: 5, 10, 13, 15, 17, 20, 25 ...): samples lie exactly on the ring
+        radii, on the axes and off them, and with radial_gap = 0 on a radius shared by two rings"""
+        def mk(t):
+            e, rcu, wu, gu, rest = t
+            dx = 2.0 ** -e
+            d = dict(rest)
+            d.update({'dx': dx, 'center_diameter': 2 * rcu * dx, 'widths': [w * dx for w in wu], 'radial_gap': gu * dx, 'ro_samples': 0})
+            return d
+        rest = st.fixed_dictionaries({
+            'spr': st.lists(st.sampled_from([2, 3, 4, 5, 6, 7, 8, 12, 16]), min_size=rings, max_size=rings),
+            'azimuthal_gap': st.sampled_from([None, None, 0.0, 0.3]),
+            'rotation': st.one_of(st.none(), rot1, st.lists(rot1, min_size=rings, max_size=rings)),
+            'pad': st.integers(0, 4), 'parity': st.sampled_from(['odd', 'even']), 'list_args': st.booleans(), **common})
+        return st.tuples(st.integers(0, 3), st.sampled_from([5, 10, 13, 15, 17, 20, 25, 4, 8]),
+                         st.lists(st.sampled_from([5, 10, 3, 4, 8, 12, 15, 2, 7]), min_size=rings, max_size=rings),
+                         st.sampled_from([0, 0, 0, 1, 3]), rest).map(mk)
+    return st.one_of(st.sampled_from([1, 2, 2, 3]).flatmap(body), st.sampled_from([1, 2, 2, 3]).flatmap(body),
+                     st.sampled_from([1, 2, 2, 3]).flatmap(body_exact))
 
 
 def check_keystone_tiling(case, ctx):
@@ -512,38 +786,88 @@ def strat_keystone_opd(tier):
             'cbasis': st.sampled_from(['zernike', 'zernike', 'hopkins', 'xy']), 'sbasis': st.sampled_from(['zernike', 'hopkins', 'xy']),
             'picks': st.lists(st.integers(0, 5), min_size=0, max_size=3), 'piston_at': st.integers(0, 3), 'seed': U.seeds,
             'probe': st.lists(st.integers(0, 30), min_size=1, max_size=3),
+            **{k: v for k, v in opd_extras().items() if k != 'exclude_form'},
         })
     return st.integers(1, 2).flatmap(body)
 
 
 def check_keystone_opd(case, ctx):
     """CompositeKeystoneAperture.prepare_opd_bases / compose_opd: piston support == own mask (centre and segments), no leakage, linear."""
-    ka, (rc, rings, widths, gap, dx, n, x, y) = build_keystone(case, ctx)
+    keep = Keep(ctx)
+    ka, (rc, rings, widths, gap, dx, n, x, y) = build_keystone(case, ctx, keep)
     nseg = sum(case['spr'])
     ctx.require(len(ka.segment_masks) == nseg, 'keystone:count', 'len(segment_masks) = %d, expected %d' % (len(ka.segment_masks), nseg))
     corders, cpk = orders_of(case['cbasis'], case['picks'], case['piston_at'])
     sorders, spk = orders_of(case['sbasis'], case['picks'][::-1], case['piston_at'] + 1)
-    ctx.label('center:' + case['cbasis'], 'segment:' + case['sbasis'])
+    ctx.label('center:' + case['cbasis'], 'segment:' + case['sbasis'], 'layout:' + case.get('layout', 'C'))
     ctx.nt(True)
     kw = {}
     if case['sbasis'] == 'xy':
         kw = {'rotate_xyaxes': True, 'segment_basis_kwargs': {'cartesian_grid': False}}   # the documented way to use x,y bases on rotated segments
-    ctx.call(ka.prepare_opd_bases, basis_of(case['cbasis']), corders, basis_of(case['sbasis']), sorders, **kw)
+    keep.result('amp', np.asarray(ka.amp))
+    keep.result('centre mask', np.asarray(ka.center_mask))
+    for i, m in enumerate(ka.segment_masks):
+        keep.result('mask of segment %d' % i, np.asarray(m))
+    if case.get('reprepare', False):
+        # the same aperture object prepared first with the two bases exchanged and other orders
+        ctx.label('prepared-twice')
+        kw2 = {'rotate_xyaxes': True, 'segment_basis_kwargs': {'cartesian_grid': False}} if case['cbasis'] == 'xy' else {}
+        ctx.call(ka.prepare_opd_bases, basis_of(case['sbasis']), BASES[case['sbasis']][:3], basis_of(case['cbasis']), BASES[case['cbasis']][1:5], **kw2)
+    ctx.call(ka.prepare_opd_bases, basis_of(case['cbasis']), list(corders), basis_of(case['sbasis']), list(sorders), **kw)
     pms = [placed((n, n), w, m) for w, m in zip(ka.segment_windows, ka.segment_masks)]
     pmc = placed((n, n), ka.center_window, ka.center_mask)
     probe = sorted(set(p % nseg for p in case['probe']))
     zc = np.zeros(len(corders))
-    check_opd_common(ctx, lambda c: ka.compose_opd(zc.copy(), c), nseg, len(sorders), spk, pms, (n, n), case['seed'], 'keystone', probe)
+    check_opd_common(ctx, lambda c, **k: ka.compose_opd(zc.copy(), c, **k), nseg, len(sorders), spk, pms, (n, n), case['seed'], 'keystone', probe, case)
+    ctx.require(not zc.any(), 'keystone:argument-modified', 'compose_opd changed the centre coefficients it was given')
     # centre: piston, leakage, linearity with the segments held at zero
     zs = np.zeros((nseg, len(sorders)))
-    check_opd_common(ctx, lambda c: ka.compose_opd(c[0], zs.copy()), 1, len(corders), cpk, [pmc], (n, n), case['seed'] + 1, 'keystone:center', [0])
+    check_opd_common(ctx, lambda c, **k: ka.compose_opd(c[0], zs.copy(), **k), 1, len(corders), cpk, [pmc], (n, n), case['seed'] + 1, 'keystone:center', [0], case)
+    keep.verify('keystone')
 
 
 # ---- primitives ------------------------------------------------------------------------------------------------------
-def prim_grid(case):
-    ny, nx = case['shape']
-    dx = float(case['dx'])
-    return grid(ny, nx, dx) + (dx,)
+GRID_DTYPES = ['f64', 'f64', 'f64', 'f32', 'i64', 'i32']
+
+
+def prim_extras():
+    """memory layout and dtype of the coordinate arrays handed to the primitive; size parameters snapped to whole numbers of
+    samples (samples exactly on the analytic boundary)"""
+    return {'layout': U.layouts, 'gdtype': st.sampled_from(GRID_DTYPES), 'snap': st.booleans()}
+
+
+class PG:
+    """coordinate grid of a primitive case: .x .y as handed to prysm (layout / dtype of the case), .xe .ye the same values
+    as float64, .dx, .f32, band(scale) = don't-care distance to the analytic boundary"""
+
+    def __init__(self, case, ctx, keep):
+        ny, nx = case['shape']
+        self.dt = case.get('gdtype', 'f64')
+        self.layout = case.get('layout', 'C')
+        self.dx = float(case['dx'])
+        if self.dt in ('i64', 'i32'):
+            self.dx = max(1.0, float(round(self.dx)))       # integer arrays: whole-number coordinates
+        self.x, self.y = grid(ny, nx, self.dx, self.layout, self.dt)
+        self.xe, self.ye = self.x.astype(np.float64), self.y.astype(np.float64)
+        self.f32 = self.dt == 'f32'
+        self.snap = bool(case.get('snap', False))
+        self.exact = self.snap and not self.f32
+        keep.arg('x', self.x), keep.arg('y', self.y)
+        ctx.label('grid-dtype:' + self.dt, 'layout:' + self.layout, 'snapped-to-samples' if self.snap else 'generic-size')
+
+    def band(self, scale):
+        # float32 coordinates: the routines compare / rotate in float32 (a Python-float radius is rounded to float32 too)
+        return (1e-5 if self.f32 else 1e-9) * scale
+
+    def size(self, v):
+        """a size parameter, snapped to a whole number of samples when the case says so (k*dx is computed like the sample
+        positions, so samples lie exactly on the boundary)"""
+        return float(round(v / self.dx)) * self.dx if self.snap else v
+
+    def radial(self, x=None, y=None):
+        """the radial coordinate array a caller would hand to circle / annulus: hypot of the coordinate arrays, their dtype and layout"""
+        r = np.hypot(self.x if x is None else x, self.y if y is None else y)
+        return U.relayout(r, self.layout)
 
 
 def sym_view(a):
@@ -586,42 +910,46 @@ def strat_round(tier):
         'shape': st.tuples(ax, ax).map(list), 'dx': st.sampled_from([1.0, 0.1, 0.037, 2.5]),
         'rad': st.integers(0, 1500).map(lambda v: v / 1000), 'rad2': st.integers(0, 1500).map(lambda v: v / 1000),   # fractions of the half-extent
         'center': st.one_of(st.just([0.0, 0.0]), st.tuples(st.integers(-50, 50), st.integers(-50, 50)).map(lambda t: [t[0] / 10, t[1] / 10])),  # in samples
+        **prim_extras(),
     })
 
 
 def check_round(case, ctx):
     """circle / annulus / offset_circle / truecircle: analytic membership, growth with radius, D4 symmetry."""
     from prysm import geometry as G
-    x, y, dx = prim_grid(case)
+    keep = Keep(ctx)
+    g = PG(case, ctx, keep)
+    x, y, dx = g.x, g.y, g.dx
     ny, nx = x.shape
     half = min(ny, nx) // 2 * dx
-    r1, r2 = sorted([case['rad'] * half, case['rad2'] * half])
-    r = np.hypot(x, y)
-    band = 1e-9 * max(half, r2, dx)
+    r1, r2 = sorted([g.size(case['rad'] * half), g.size(case['rad2'] * half)])
+    rarg = keep.arg('r', g.radial())      # handed to prysm
+    r = rarg.astype(np.float64)           # its values
+    band = g.band(max(half, r2, dx))
     ctx.label('odd' if ny % 2 and nx % 2 else 'has-even-axis', 'square' if ny == nx else 'nonsquare', 'offset' if any(case['center']) else 'centred')
-    c2 = ctx.call(G.circle, r2, r)
+    c2 = keep.result('circle(r2)', ctx.call(G.circle, r2, rarg))
     ctx.nt(bool(np.any(c2)) and not bool(np.all(c2)))
     msg = compare_mask(ctx, c2, r <= r2, r - r2, band, 'circle', 'circle(radius=%g)' % r2)
     ctx.require(msg is None, 'circle:membership', msg or '')
-    c1 = ctx.call(G.circle, r1, r)
+    c1 = ctx.call(G.circle, r1, rarg)
     ctx.require(not (np.asarray(c1) & ~np.asarray(c2)).any(), 'circle:monotone', 'circle(%g) is not contained in circle(%g)' % (r1, r2))
     check_symmetry(ctx, c2, r - r2, band, ['flipx', 'flipy', 'rot180', 'rot90', 'transpose'], 'circle', 'circle(%g)' % r2)
     # annulus (inclusive on both radii)
-    an = ctx.call(G.annulus, r1, r2, r)
+    an = keep.result('annulus(r1, r2)', ctx.call(G.annulus, r1, r2, rarg))
     inside = (r >= r1) & (r <= r2)
     margin = np.minimum(np.abs(r - r1), np.abs(r - r2))
     msg = compare_mask(ctx, an, inside, margin, band, 'annulus', 'annulus(%g, %g)' % (r1, r2))
     ctx.require(msg is None, 'annulus:membership', msg or '')
     r3 = r2 + 0.37 * dx
-    an_big = ctx.call(G.annulus, r1, r3, r)
+    an_big = ctx.call(G.annulus, r1, r3, rarg)
     ctx.require(not (np.asarray(an) & ~np.asarray(an_big)).any(), 'annulus:monotone', 'annulus grows with rout: (%g,%g) not inside (%g,%g)' % (r1, r2, r1, r3))
-    an_small = ctx.call(G.annulus, r1 + 0.41 * dx, r2, r)
+    an_small = ctx.call(G.annulus, r1 + 0.41 * dx, r2, rarg)
     ctx.require(not (np.asarray(an_small) & ~np.asarray(an)).any(), 'annulus:monotone', 'annulus shrinks with rin')
     check_symmetry(ctx, an, margin, band, ['flipx', 'flipy', 'rot180', 'rot90', 'transpose'], 'annulus', 'annulus(%g,%g)' % (r1, r2))
     # offset circle
     cx, cy = case['center'][0] * dx, case['center'][1] * dx
-    oc = ctx.call(G.offset_circle, r2, x, y, (cx, cy))
-    ro = np.hypot(x - cx, y - cy)
+    oc = keep.result('offset_circle(r2)', ctx.call(G.offset_circle, r2, x, y, (cx, cy)))
+    ro = np.hypot(g.xe - cx, g.ye - cy)
     msg = compare_mask(ctx, oc, ro <= r2, ro - r2, band, 'offset_circle', 'offset_circle(%g, center=(%g,%g))' % (r2, cx, cy))
     ctx.require(msg is None, 'offset_circle:membership', msg or '')
     oc1 = ctx.call(G.offset_circle, r1, x, y, (cx, cy))
@@ -642,25 +970,35 @@ def check_round(case, ctx):
         known[ys, xs] = True
         diff = (np.asarray(oc) != ref) & known & (np.abs(ro - r2) > band)
         ctx.require(not diff.any(), 'offset_circle:shift', 'offset by (%d,%d) samples is not the shifted centred circle: %d samples differ' % (sx, sy, int(diff.sum())))
+    if cx == 0 and cy == 0:
+        # centred: mirror images of a sample have bit-identical coordinates, so the symmetry holds for every sample, the
+        # ones exactly on the boundary included (no don't-care band) unless the coordinates are float32
+        ctx.label('offset_circle:centred')
+        check_symmetry(ctx, oc, ro - r2, -1.0 if not g.f32 else band, ['flipx', 'flipy', 'rot180'], 'offset_circle', 'offset_circle(%g, centre 0)' % r2)
+    if g.exact:
+        ctx.tally('samples_exactly_on_the_circle', int((r == r2).sum()))
     # truecircle on a grid normalised to [-1, 1]
     n = ny
-    xt, yt = grid(n, n, 2.0 / n)
-    rt = np.hypot(xt, yt)
+    xt, yt = grid(n, n, 2.0 / n, g.layout, 'f32' if g.f32 else None)
+    rtarg = keep.arg('r (truecircle)', U.relayout(np.hypot(xt, yt), g.layout))
+    rt = rtarg.astype(np.float64)
+    eps_t = 1e-5 if g.f32 else 1e-12
     rad = case['rad'] if case['rad'] <= 1.2 else case['rad'] - 0.5
-    tc = np.asarray(ctx.call(G.truecircle, rad, rt))
+    tc = np.asarray(ctx.call(G.truecircle, rad, rtarg))
     U.check_shape(tc, (n, n), 'truecircle')
     px = 2.0 / n
     if rad == 0:
         ctx.require(not tc.any(), 'truecircle:zero-radius', 'truecircle(0) is not empty')
     else:
         ctx.require(float(tc.min()) >= 0 and float(tc.max()) <= 1, 'truecircle:range', 'values outside [0,1]: min %r max %r' % (float(tc.min()), float(tc.max())))
-        ins = rt <= rad - px / 2 - 1e-12
-        out = rt >= rad + px / 2 + 1e-12
+        ins = rt <= rad - px / 2 - eps_t
+        out = rt >= rad + px / 2 + eps_t
         ctx.require(np.all(tc[ins] == 1), 'truecircle:inside', 'truecircle(%g) < 1 at %d samples with r <= radius - px/2' % (rad, int((tc[ins] != 1).sum())))
         ctx.require(np.all(tc[out] == 0), 'truecircle:outside', 'truecircle(%g) > 0 at %d samples with r >= radius + px/2' % (rad, int((tc[out] != 0).sum())))
         o = np.argsort(rt, axis=None, kind='stable')
         v = tc.ravel()[o]
         ctx.require(np.all(np.diff(v) <= 1e-12), 'truecircle:monotone', 'truecircle(%g) is not non-increasing in r' % rad)
+    keep.verify('round-masks')
 
 
 def strat_polygon(tier):
@@ -672,32 +1010,38 @@ def strat_polygon(tier):
         'rad': st.integers(50, 1400).map(lambda v: v / 1000), 'grow': st.integers(1, 400).map(lambda v: v / 1000),
         'rotation': st.one_of(st.just(0.0), st.sampled_from([0.0, 90.0, 30.0, 45.0, 180.0]), st.integers(-3600, 3600).map(lambda v: v / 10)),
         'center': st.one_of(st.just([0.0, 0.0]), st.tuples(st.integers(-40, 40), st.integers(-40, 40)).map(lambda t: [t[0] / 10, t[1] / 10])),
+        **prim_extras(),
     })
 
 
 def check_polygon(case, ctx):
     """regular_polygon: membership vs the analytic half-plane intersection, growth with radius, mirror / rotation symmetry."""
     from prysm import geometry as G
-    x, y, dx = prim_grid(case)
+    keep = Keep(ctx)
+    g = PG(case, ctx, keep)
+    x, y, dx = g.x, g.y, g.dx
     ny, nx = x.shape
     half = min(ny, nx) // 2 * dx
     sides, rot = case['sides'], case['rotation']
-    R = case['rad'] * half
+    R = g.size(case['rad'] * half)
+    if R == 0:
+        R = dx
     c = (case['center'][0] * dx, case['center'][1] * dx)
     ctx.label('sides:%d' % sides if sides in (3, 4, 6) else 'sides:other', 'rot0' if rot == 0 else 'rotated', 'offset' if any(case['center']) else 'centred')
-    m = ctx.call(G.regular_polygon, sides, R, x, y, center=c, rotation=rot)
-    mg = poly_margin(x, y, sides, R, c, rot)
+    m = keep.result('regular_polygon(R)', np.asarray(ctx.call(G.regular_polygon, sides, R, x, y, center=c, rotation=rot)))
+    mg = poly_margin(g.xe, g.ye, sides, R, c, rot)
     ctx.nt(bool(np.any(m)) and not bool(np.all(m)))
     band = 1e-7 * R + 1e-12 * half
     msg = compare_mask(ctx, m, mg < 0, mg, band, 'regular_polygon', 'regular_polygon(sides=%d, radius=%g, center=%r, rotation=%g)' % (sides, R, c, rot))
     ctx.require(msg is None, 'regular_polygon:membership', msg or '')
     # the coordinates may also be given as the two 1-D axes of the grid (documented: "2D or 1D")
-    m1d = ctx.call(G.regular_polygon, sides, R, np.ascontiguousarray(x[0, :]), np.ascontiguousarray(y[:, 0]), center=c, rotation=rot)
+    x1, y1 = keep.arg('1-D x', U.relayout(x[0, :], g.layout)), keep.arg('1-D y', U.relayout(y[:, 0], g.layout))
+    m1d = ctx.call(G.regular_polygon, sides, R, x1, y1, center=c, rotation=rot)
     U.check_equal(np.asarray(m1d), np.asarray(m), 'regular_polygon:1d-coordinates', 'mask from 1-D x, y differs from the mask on the 2-D grid')
     # vertex 0 at (0, +radius) for rotation 0: the topmost point of the analytic shape is at distance R above the centre
     R2 = R * (1 + case['grow'])
     m2 = ctx.call(G.regular_polygon, sides, R2, x, y, center=c, rotation=rot)
-    mg2 = poly_margin(x, y, sides, R2, c, rot)
+    mg2 = poly_margin(g.xe, g.ye, sides, R2, c, rot)
     viol = (np.asarray(m) & ~np.asarray(m2)) & (np.abs(mg) > band) & (np.abs(mg2) > 1e-7 * R2 + 1e-12 * half)
     ctx.require(not viol.any(), 'regular_polygon:monotone', 'polygon of radius %g not inside polygon of radius %g: %d samples' % (R, R2, int(viol.sum())))
     if not any(case['center']):
@@ -716,6 +1060,7 @@ def check_polygon(case, ctx):
         check_symmetry(ctx, m, mg, band, ops, 'regular_polygon', 'regular_polygon(sides=%d, rotation=%g)' % (sides, rot))
         for o_ in ops:
             ctx.label('sym:' + o_)
+    keep.verify('regular_polygon')
 
 
 def _rot(x, y, deg):
@@ -732,26 +1077,31 @@ def strat_rect(tier):
         'w': frac, 'h': st.one_of(st.none(), frac), 'grow': st.integers(1, 400).map(lambda v: v / 1000),
         'angle': st.one_of(st.just(0.0), st.just(90.0), st.sampled_from([45.0, 30.0, 180.0, -90.0, 270.0]), st.integers(-3600, 3600).map(lambda v: v / 10)),
         'a': frac, 'b': frac, 'eangle': st.one_of(st.just(0.0), st.sampled_from([90.0, 45.0, 180.0]), st.integers(-3600, 3600).map(lambda v: v / 10)),
+        **prim_extras(),
     })
 
 
 def check_rect_ellipse(case, ctx):
     """rectangle (half-extents, inclusive) and rotated_ellipse (semi-axes, 0/1 floats): analytic membership for one rotation sense, growth, mirror symmetry."""
     from prysm import geometry as G
-    x, y, dx = prim_grid(case)
+    keep = Keep(ctx)
+    g = PG(case, ctx, keep)
+    x, y, dx = g.x, g.y, g.dx
+    xe, ye = g.xe, g.ye
     ny, nx = x.shape
     half = min(ny, nx) // 2 * dx
-    w = case['w'] * half
-    h = w if case['h'] is None else case['h'] * half
+    w = g.size(case['w'] * half)
+    h = w if case['h'] is None else g.size(case['h'] * half)
     ang = case['angle']
-    band = 1e-9 * max(half, w, h)
+    band = g.band(max(half, w, h))
     ctx.label('rect-angle:%s' % ('0' if ang == 0 else '90' if ang == 90 else 'other'), 'square-rect' if case['h'] is None else 'rect')
     kw = {} if case['h'] is None else {'height': h}
-    m = ctx.call(G.rectangle, w, x.copy(), y.copy(), angle=ang, **kw)
+    m = keep.result('rectangle(w, h)', np.asarray(ctx.call(G.rectangle, w, x, y, angle=ang, **kw)))
+    U.check_shape(m, (ny, nx), 'rectangle')
     nontriv = bool(np.any(m)) and not bool(np.all(m))
 
     def rect_model(sense):
-        xr, yr = _rot(x, y, sense * ang)
+        xr, yr = _rot(xe, ye, sense * ang)
         mg = np.maximum(np.abs(xr) - w, np.abs(yr) - h)
         return mg <= 0, mg
     msgs = []
@@ -763,37 +1113,47 @@ def check_rect_ellipse(case, ctx):
         msgs.append(msg)
     else:
         ctx.fail('rectangle:membership:angle=%s' % ('0' if ang == 0 else '90' if ang == 90 else 'other'), ' / '.join(msgs))
-    m2 = ctx.call(G.rectangle, w * (1 + case['grow']), x.copy(), y.copy(), angle=ang, **({} if case['h'] is None else {'height': h * (1 + case['grow'])}))
+    m2 = ctx.call(G.rectangle, w * (1 + case['grow']), x, y, angle=ang, **({} if case['h'] is None else {'height': h * (1 + case['grow'])}))
     inside2, mg2 = rect_model(sense)
     viol = (np.asarray(m) & ~np.asarray(m2)) & (np.abs(mg) > 100 * band)
     ctx.require(not viol.any(), 'rectangle:monotone', 'rectangle does not grow with its half-extents (%d samples lost)' % int(viol.sum()))
-    if ang % 90 == 0:
+    if ang in (0, 90):
+        # |x| <= w, |y| <= h on the coordinates themselves (90: the two swapped): mirror images of a sample have bit-identical
+        # coordinates, so the symmetry holds for every sample, those exactly on an edge included
+        ctx.label('rectangle:strict-symmetry')
+        if g.exact:
+            ctx.tally('samples_exactly_on_a_rectangle_edge', int((mg == 0).sum()))
+        check_symmetry(ctx, m, mg, -1.0, ['flipx', 'flipy', 'rot180'], 'rectangle', 'rectangle(%g,%g,angle=%g)' % (w, h, ang))
+    elif ang % 90 == 0:
         check_symmetry(ctx, m, mg, band, ['flipx', 'flipy', 'rot180'], 'rectangle', 'rectangle(%g,%g,angle=%g)' % (w, h, ang))
     else:
         check_symmetry(ctx, m, mg, 100 * band, ['rot180'], 'rectangle', 'rectangle(%g,%g,angle=%g)' % (w, h, ang))
     # ellipse
-    a, b = sorted([case['a'] * half, case['b'] * half], reverse=True)
+    a, b = sorted([g.size(case['a'] * half), g.size(case['b'] * half)], reverse=True)
+    eb = 1e-5 if g.f32 else 1e-9
     ea = case['eangle']
     if b > 0:
-        e = ctx.call(G.rotated_ellipse, a, b, x, y, major_axis_angle=ea)
-        e = np.asarray(e)
+        e = keep.result('rotated_ellipse(a, b)', np.asarray(ctx.call(G.rotated_ellipse, a, b, x, y, major_axis_angle=ea)))
+        U.check_shape(e, (ny, nx), 'rotated_ellipse')
         ctx.require(set(np.unique(e).tolist()) <= {0.0, 1.0}, 'rotated_ellipse:values', 'values other than 0/1: %r' % (np.unique(e)[:5],))
         nontriv = nontriv or (bool(e.any()) and not bool(e.all()))
         msgs = []
         for sense in (+1, -1):
-            xr, yr = _rot(x, y, sense * ea)
+            xr, yr = _rot(xe, ye, sense * ea)
             q = (xr / a) ** 2 + (yr / b) ** 2
-            msg = compare_mask(ctx, e, q <= 1, q - 1, 1e-9, 'rotated_ellipse', 'rotated_ellipse(%g, %g, angle=%g)' % (a, b, ea))
+            msg = compare_mask(ctx, e, q <= 1, q - 1, eb, 'rotated_ellipse', 'rotated_ellipse(%g, %g, angle=%g)' % (a, b, ea))
             if msg is None:
                 break
             msgs.append(msg)
         else:
             ctx.fail('rotated_ellipse:membership', ' / '.join(msgs))
         e2 = np.asarray(ctx.call(G.rotated_ellipse, a * (1 + case['grow']), b * (1 + case['grow']), x, y, major_axis_angle=ea))
-        viol = (e != 0) & (e2 == 0) & (np.abs(q - 1) > 1e-9)
+        viol = (e != 0) & (e2 == 0) & (np.abs(q - 1) > eb)
         ctx.require(not viol.any(), 'rotated_ellipse:monotone', 'ellipse does not grow with its semi-axes')
-        check_symmetry(ctx, e, q - 1, 1e-9, ['rot180'] + (['flipx', 'flipy'] if ea % 90 == 0 else []), 'rotated_ellipse', 'rotated_ellipse(%g,%g,%g)' % (a, b, ea))
+        # major axis along x: the quadratic form is evaluated on x^2 and y^2, identical for the mirror images of a sample
+        check_symmetry(ctx, e, q - 1, -1.0 if ea == 0 else eb, ['rot180'] + (['flipx', 'flipy'] if ea % 90 == 0 else []), 'rotated_ellipse', 'rotated_ellipse(%g,%g,%g)' % (a, b, ea))
     ctx.nt(nontriv)
+    keep.verify('rect-ellipse')
 
 
 def strat_spider(tier):
@@ -806,6 +1166,7 @@ def strat_spider(tier):
         'rotation': st.one_of(st.just(0.0), st.sampled_from([0.0, 90.0, 45.0, 180.0]), st.integers(-3600, 3600).map(lambda v: v / 10)),
         'rad': st.booleans(),
         'center': st.one_of(st.just([0.0, 0.0]), st.tuples(st.integers(-40, 40), st.integers(-40, 40)).map(lambda t: [t[0] / 10, t[1] / 10])),
+        **prim_extras(),
     })
 
 
@@ -829,21 +1190,24 @@ def spider_model(x, y, vanes, width, rot_deg, center):
 def check_spider(case, ctx):
     """spider: True outside the vanes; analytic union of half-strips (either rotation sense; exact for rotation 0), growth of the blocked set with width, vanes-fold symmetry."""
     from prysm import geometry as G
-    x, y, dx = prim_grid(case)
+    keep = Keep(ctx)
+    g = PG(case, ctx, keep)
+    x, y, dx = g.x, g.y, g.dx
+    xe, ye = g.xe, g.ye
     ny, nx = x.shape
     half = max(ny, nx) * dx
-    vanes, width, rot = case['vanes'], case['width'] * dx, case['rotation']
+    vanes, width, rot = case['vanes'], g.size(case['width'] * dx) * (2 if g.snap else 1), case['rotation']   # snapped: half-width on a sample row
     c = (case['center'][0] * dx, case['center'][1] * dx)
-    band = 1e-9 * half
+    band = g.band(half)
     ctx.label('vanes:%d' % vanes, 'rot0' if rot == 0 else 'rotated', 'rad' if case['rad'] else 'deg', 'offset' if any(case['center']) else 'centred')
     rarg = math.radians(rot) if case['rad'] else rot
     m = ctx.call(G.spider, vanes, width, x, y, rotation=rarg, center=c, rotation_is_rad=case['rad'])
-    m = np.asarray(m)
+    m = keep.result('spider(width)', np.asarray(m))
     U.check_shape(m, (ny, nx), 'spider')
     ctx.nt(bool(m.any()) and not bool(m.all()))
     msgs = []
     for sense in ((+1,) if rot == 0 else (+1, -1)):
-        want, mg = spider_model(x, y, vanes, width, sense * rot, c)
+        want, mg = spider_model(xe, ye, vanes, width, sense * rot, c)
         msg = compare_mask(ctx, m, want, mg, band, 'spider', 'spider(vanes=%d, width=%g, rotation=%g, center=%r)' % (vanes, width, rot, c))
         if msg is None:
             break
@@ -852,7 +1216,7 @@ def check_spider(case, ctx):
         ctx.fail('spider:membership', ' / '.join(msgs))
     w2 = width * (1 + case['grow']) + 0.3 * dx
     m2 = np.asarray(ctx.call(G.spider, vanes, w2, x, y, rotation=rarg, center=c, rotation_is_rad=case['rad']))
-    _, mgb = spider_model(x, y, vanes, w2, sense * rot, c)
+    _, mgb = spider_model(xe, ye, vanes, w2, sense * rot, c)
     viol = (~m & m2) & (mg > band) & (mgb > band)
     ctx.require(not viol.any(), 'spider:monotone', 'vanes of width %g block %d samples that vanes of width %g do not' % (width, int(viol.sum()), w2))
     if not any(case['center']):
@@ -866,6 +1230,12 @@ def check_spider(case, ctx):
         if vanes % 2 == 0 and rot % 180 == 0:
             ops.append('flipx')
         check_symmetry(ctx, m, mg, band, ops, 'spider', 'spider(vanes=%d, rotation=%g)' % (vanes, rot))
+        if rot == 0 and not g.f32:
+            # y -> -y maps (r, p) to (r, -p) exactly and the vane test is on |r sin p|: holds for every sample, no band
+            ctx.label('spider:strict-mirror')
+            strict = ['flipy'] if vanes == 1 else []
+            check_symmetry(ctx, m, mg, -1.0, strict, 'spider', 'spider(vanes=%d, rotation=0)' % vanes)
+    keep.verify('spider')
 
 
 CLAUSES = [
